@@ -481,6 +481,12 @@ class Folder:
         # attribute assigned in __init__ from a parameter expression
         assigns = self.ix.self_attr_assignments(c, attr)
         inits = [(meth, v) for meth, v, st in assigns if meth.name == '__init__']
+        if len(inits) > 1:
+            # several constructors of the MRO assign it: the most derived class (first in MRO order) runs last
+            # (after its super().__init__() call) and wins; within one constructor the last assignment wins
+            first_cls = inits[0][0].cls
+            own = [x for x in inits if x[0].cls == first_cls]
+            inits = own[-1:]
         if len(inits) == 1:
             meth, v = inits[0]
             env = self.init_env(rec, meth, depth)
